@@ -542,6 +542,33 @@ func unicodeTypeNames(name string, async bool) *spec.Spec {
 	return b.s
 }
 
+// sharedSetAliasedImport: one Set variable used by three injectors of a file.
+// It holds providers of a sibling package imported under an alias; the first
+// injectors need none of them (or only a main-package one), a later one does.
+// The set's expressions are walked once per injector: what the later walk
+// learns about imports must not depend on the earlier ones.
+func sharedSetAliasedImport(name string, async bool) *spec.Spec {
+	b := newBuilder(name)
+	st := b.ext("storage", "storage", "st")
+	audit := b.ptr(b.strct("Audit", ""))
+	mem := b.ptr(b.strct("MemStore", st))
+	disk := b.ptr(b.strct("DiskStore", st))
+	svc := b.ptr(b.strct("Service", ""))
+	p1 := b.fn("NewAudit", "", nil, []int{audit}, false, false)
+	p2 := b.fn("OpenMem", st, nil, []int{mem}, async, false)
+	p3 := b.fn("OpenDisk", st, nil, []int{disk}, async, true)
+	p4 := b.fn("NewService", "", []int{audit, mem, disk}, []int{svc}, false, false)
+	b.s.Sets = []*spec.SetDef{{Name: "CommonSet", Items: []spec.Item{{Prov: p1}, {Prov: p2}, {Prov: p3}}}}
+	b.s.Injectors = append(b.s.Injectors,
+		&spec.Injector{Name: "InitializeAudit", Ret: audit, Items: []spec.Item{{Prov: -1, Set: "CommonSet"}}},
+		&spec.Injector{Name: "InitializeAuditAgain", Ret: audit, Items: []spec.Item{{Prov: -1, Set: "CommonSet"}}},
+		// no signature and (without goroutines) no variable block mentions the
+		// sibling package here: only the copied provider expressions do
+		&spec.Injector{Name: "InitializeService", Ret: svc, Items: []spec.Item{{Prov: -1, Set: "CommonSet"}, {Prov: p4}}})
+	b.s.Features = append(b.s.Features, "set-with-aliased-sibling-providers-shared-by-injectors")
+	return b.s
+}
+
 // injectorNameForms: declarations whose injector name cannot become a
 // package-level function: used twice in one file (0) or in two files of one
 // package (4), equal to a function the user wrote (1), a keyword (2), not an
@@ -630,6 +657,7 @@ func corpusSpecs(prop string) []*spec.Spec {
 		fs = append(fs, foreignCompositeKeys("kc"+prop[1:]+"s", false), foreignCompositeKeys("kc"+prop[1:]+"a", true))
 		fs = append(fs, spelledTwoWays("kt"+prop[1:]+"s", false), spelledTwoWays("kt"+prop[1:]+"a", true))
 		fs = append(fs, unicodeTypeNames("ku"+prop[1:]+"s", false), unicodeTypeNames("ku"+prop[1:]+"a", true))
+		fs = append(fs, sharedSetAliasedImport("kh"+prop[1:]+"s", false), sharedSetAliasedImport("kh"+prop[1:]+"a", true))
 		fs = append(fs, dotImported("kd"+prop[1:]+"s", false), dotImported("kd"+prop[1:]+"a", true))
 		fs = append(fs, bindVariadic("kb"+prop[1:]+"s", false, false), bindVariadic("kb"+prop[1:]+"a", true, false), bindVariadic("kb"+prop[1:]+"t", false, true), bindVariadic("kb"+prop[1:]+"b", true, true))
 		if prop == "C04" {
@@ -651,6 +679,7 @@ func corpusSpecs(prop string) []*spec.Spec {
 			fs = append(fs, suffixNamedFiles("kz"+prop[1:]+"s", false), suffixNamedFiles("kz"+prop[1:]+"a", true))
 			fs = append(fs, dotImported("kd"+prop[1:]+"s", false), dotImported("kd"+prop[1:]+"a", true))
 			fs = append(fs, aliasDeclaredFields("ka"+prop[1:]+"s", false), aliasDeclaredFields("ka"+prop[1:]+"a", true))
+			fs = append(fs, sharedSetAliasedImport("kh"+prop[1:]+"s", false), sharedSetAliasedImport("kh"+prop[1:]+"a", true))
 			fs = append(fs, bindVariadic("kb"+prop[1:]+"s", false, false), bindVariadic("kb"+prop[1:]+"a", true, false), bindVariadic("kb"+prop[1:]+"t", false, true), bindVariadic("kb"+prop[1:]+"b", true, true))
 			fs = append(fs, setReferenceForms("ks"+prop[1:]+"p", 0, false), setReferenceForms("ks"+prop[1:]+"q", 0, true))
 		}
